@@ -236,7 +236,9 @@ class MSGate(cirq.Gate):
         )
 
     def __repr__(self) -> str:
-        return f'cirq_ionq.MSGate(phi0={self.phi0!r}, phi1={self.phi1!r})'
+        if self.theta == 0.25:
+            return f'cirq_ionq.MSGate(phi0={self.phi0!r}, phi1={self.phi1!r})'
+        return f'cirq_ionq.MSGate(phi0={self.phi0!r}, phi1={self.phi1!r}, theta={self.theta!r})'
 
     def _json_dict_(self) -> dict[str, Any]:
         return cirq.obj_to_dict_helper(self, ['phi0', 'phi1', 'theta'])
